@@ -126,3 +126,5 @@ def run(ck):
         promsel = None
     if promsel is not None:
         promsel.run(ck)
+    from checks import promreq              # round 6: overlapping requests through the real router, row streams that break off
+    promreq.run(ck)
